@@ -648,12 +648,12 @@ Proof.
   destruct e as [t o|t|t r]; simpl in Hstep.
   - (* invocation *)
     destruct (st t) eqn:Et; try discriminate. injection Hstep as <-.
-    exists lin. rewrite erase_app; simpl; fold h.
+    exists lin.
     assert (Hc : forall i j r, completed (h ++ [HInv t o]) i j r -> completed h i j r).
     { intros i j r C. apply completed_snoc_inv with (e := HInv t o); auto.
       pose proof C as (t' & o' & _ & Hj & _).
       apply nth_snoc_inv in Hj; destruct Hj as [[Hj _]|[_ Hj]]; [auto|discriminate]. }
-    constructor; simpl.
+    constructor; rewrite ?erase_app; simpl; fold h.
     + constructor.
       * intros a Ha; apply nth_snoc_old, (lin_ops L a Ha).
       * apply (lin_nodup L).
@@ -679,9 +679,9 @@ Proof.
     destruct (li_pending I t Et) as (i & Hl & Hfresh). fold h in Hl.
     set (r := snd (sstep Sp s o)).
     set (a := {| l_inv := i; l_tid := t; l_op := o; l_res := r |}).
-    exists (lin ++ [a]). rewrite erase_app; simpl; rewrite app_nil_r; fold h.
+    exists (lin ++ [a]).
     pose proof (li_state I) as Hs; simpl in Hs.
-    constructor; simpl.
+    constructor; rewrite ?erase_app; simpl; rewrite ?app_nil_r; fold h.
     + constructor.
       * intros b Hb; apply in_app_or in Hb; destruct Hb as [Hb|[<-|[]]].
         -- apply (lin_ops L b Hb).
@@ -715,8 +715,8 @@ Proof.
     destruct (res_eqb Sp r r') eqn:Er; try discriminate. injection Hstep as <-.
     apply res_eqb_spec in Er; subst r'.
     destruct (li_linearized I t Et) as (i & Hl & a & Ha & Eai & Ear). fold h in Hl.
-    exists lin. rewrite erase_app; simpl; fold h.
-    constructor; simpl.
+    exists lin.
+    constructor; rewrite ?erase_app; simpl; fold h.
     + constructor.
       * intros b Hb; apply nth_snoc_old, (lin_ops L b Hb).
       * apply (lin_nodup L).
